@@ -658,14 +658,18 @@ impl<Front: SocketHandler> ConnectionH1<Front> {
                     if let StreamState::Linked(token) = old_state {
                         remove_backend_stream(&mut context.backend_streams, token, stream_id);
                     }
-                    // A backend response carrying `Connection: close` is
-                    // forwarded with that header: the client expects this
-                    // connection to end with the response, and for a body
-                    // without Content-Length the close is its only delimiter.
-                    // Keeping the connection open would leave it idle until the
-                    // frontend timer, which then writes a 408 onto the tail of
-                    // the close-delimited body.
-                    if stream.context.keep_alive_frontend && stream.context.keep_alive_backend {
+                    // A response whose end was signalled by the backend closing
+                    // its connection (a close-delimited body: no Content-Length,
+                    // not chunked; or a body cut short of its declared length,
+                    // `expects` still > 0) can only be ended towards the client
+                    // the same way. Keeping the connection open would leave it
+                    // idle until the frontend timer, which then writes a 408
+                    // onto the tail of the body. A complete, length-delimited
+                    // response that merely carries `Connection: close` keeps the
+                    // client connection alive as before.
+                    let ended_by_close =
+                        !stream.context.keep_alive_backend && stream.back.expects > 0;
+                    if stream.context.keep_alive_frontend && !ended_by_close {
                         self.timeout_container.reset();
                         if let StreamState::Linked(token) = old_state {
                             endpoint.end_stream(token, stream_id, context);
